@@ -26,6 +26,20 @@ TAG3 = 'C17.covariate_over_pooled'
 TAG10 = 'C17.stale_name_tables_after_readministration'
 
 
+def stable_queries(ctx, tag, obj, inp, names_fn='get_parameter_names', count_fn='n_parameters'):
+    """asking twice gives the same answer (a name list handed out is the caller's to change)"""
+    try:
+        a = list(getattr(obj, names_fn)())
+        a.append('appended by the caller')
+        b = list(getattr(obj, names_fn)())
+        c = list(getattr(obj, names_fn)())
+        n = getattr(obj, count_fn)()
+        ctx.spec(tag + '.repeated_queries', b == c == a[:-1] and n == len(b), inp,
+                 {'first': a[:-1], 'second': b, 'third': c, 'count': n})
+    except Exception as e:  # noqa
+        ctx.spec(tag + '.repeated_queries', False, inp, {'raised': repr(e)[:200]})
+
+
 def check_pop(ctx, pm, n_ids, rng, inp, tag, known_tag=None, cov_pooled=False):
     """count == names == accepted vector == gradient length, for a population model"""
     t = known_tag or tag
@@ -37,6 +51,7 @@ def check_pop(ctx, pm, n_ids, rng, inp, tag, known_tag=None, cov_pooled=False):
         ctx.spec(t + '.raises', False, inp, {'raised': repr(e)[:200]})
         return
     ctx.spec(t + '.count_eq_names', n == len(names), inp, {'n_parameters': n, 'names': names})
+    stable_queries(ctx, t, pm, inp)
     ctx.spec(t + '.top_eq_count', nt == n, inp, {'n_hierarchical_parameters': [nb, nt], 'n_parameters': n})
     if inp.get('composed') or len(inp.get('subs', [])) == 1:
         ctx.spec(t + '.names_distinct', len(set(names)) == len(names), inp, {'names': names})
@@ -81,7 +96,14 @@ def pop_objects(ctx, chi, rng, i, subs=None, n_ids=None, ops=True):
             r = rng.random()
             try:
                 if r < 0.3:
-                    n_ids = int(rng.integers(1, 5))
+                    n_new = int(rng.integers(1, 5))
+                    H = sum(nd for c, nd, _, _ in subs if c == 6)
+                    if isinstance(pm, chi.ReducedPopulationModel) and H and rng.random() < 0.6:
+                        # the change removes (or adds) exactly as many parameters as are fixed
+                        k = pm.n_fixed_parameters()
+                        if k % H == 0 and n_ids - k // H >= 1:
+                            n_new = n_ids - k // H
+                    n_ids = n_new
                     pm.set_n_ids(n_ids)
                     seq.append('set_n_ids(%d)' % n_ids)
                     if isinstance(pm, chi.ReducedPopulationModel) and hetero:
@@ -152,6 +174,72 @@ def reduced_before_n_ids(ctx, chi, rng):
     check_pop(ctx, pm, 3, rng, inp, 'C17.population', TAG19)
 
 
+def reduced_then_resized(ctx, chi, rng):
+    """a reduced population model with k fixed parameters around heterogeneous sub-models is resized — by
+    set_n_ids or by building a hierarchical likelihood with another number of individuals —, in particular
+    by exactly as many parameters as are fixed"""
+    hd = [int(rng.integers(1, 3)) for _ in range(int(rng.integers(1, 3)))]
+    others = [(int(rng.choice([0, 2, 5])), int(rng.integers(1, 3))) for _ in range(int(rng.integers(1, 3)))]
+    parts = [('H', d) for d in hd] + [(c02.KINDS[c], d) for c, d in others]
+    order = rng.permutation(len(parts))
+    parts = [parts[j] for j in order]
+
+    def mk(kind, d):
+        return {'H': chi.HeterogeneousModel, 'Gc': chi.GaussianModel, 'LNc': chi.LogNormalModel,
+                'P': chi.PooledModel}[kind](n_dim=d)
+    n0 = int(rng.integers(2, 5))
+    base = chi.ComposedPopulationModel([mk(k, d) for k, d in parts])
+    base.set_n_ids(n0)
+    pm = chi.ReducedPopulationModel(base)
+    names = pm.get_parameter_names()
+    H = sum(hd)
+    # fix only parameters that exist for every number of individuals (not those of heterogeneous models)
+    stable = [n for n in names if not n.startswith('ID ')]
+    if not stable:
+        return
+    kmax = min(len(stable), (n0 - 1) * H)
+    ks = [k for k in range(1, kmax + 1) if k % H == 0]
+    k = int(rng.choice(ks)) if ks and rng.random() < 0.7 else int(rng.integers(1, len(stable) + 1))
+    fx = [stable[j] for j in rng.choice(len(stable), size=k, replace=False)]
+    pm.fix_parameters({n: 1.0 for n in fx})
+    n1 = n0 - k // H if (k % H == 0 and n0 - k // H >= 1) else int(rng.integers(1, 5))
+    via_hier = rng.random() < 0.5
+    inp = {'object': 'ReducedPopulationModel(Composed%s)' % parts, 'n_ids_before': n0, 'fixed': fx, 'n_ids_after': n1,
+           'resized_by': 'HierarchicalLogLikelihood' if via_hier else 'set_n_ids'}
+    ctx.case('population/reduced-then-resized', nontrivial='P/red-resize/%s/%d/%d/%d' % (parts, n0, k, n1), sample=inp)
+    try:
+        if via_hier:
+            D = sum(d for _, d in parts)
+            lls = [chi.LogLikelihood(toy.ToyModel(1, D - 1, 5), chi.GaussianErrorModel(), [1.0, 2.0], [1.0, 2.0])
+                   for _ in range(n1)]
+            hll = chi.HierarchicalLogLikelihood(lls, pm)
+            m = hll.n_parameters()
+            nm = hll.get_parameter_names()
+            ctx.spec('C17.Hierarchical.count_eq_names_eq_ids', m == len(nm) == len(hll.get_id()), inp,
+                     {'n': m, 'names': len(nm)})
+            x = rng.uniform(0.5, 1.5, m)
+            with np.errstate(all='ignore'):
+                hll(x)
+                _, g = hll.evaluateS1(x)
+            ctx.spec('C17.Hierarchical.gradient_length', len(g) == m, inp, {'len': len(g), 'n': m})
+        else:
+            pm.set_n_ids(n1)
+    except Exception as e:  # noqa
+        ctx.spec('C17.population.reconfiguration_raises', False, inp, {'raised': repr(e)[:200]})
+        return
+    fresh = chi.ComposedPopulationModel([mk(k_, d) for k_, d in parts])
+    fresh.set_n_ids(n1)
+    want = [n for n in fresh.get_parameter_names() if n not in fx]
+    try:
+        got = pm.get_parameter_names()
+        ctx.spec('C17.population.names_after_resize', got == want and pm.n_parameters() == len(want) and
+                 pm.n_fixed_parameters() == len(fx), inp, {'names': got, 'expected': want, 'n': pm.n_parameters()})
+    except Exception as e:  # noqa
+        ctx.spec('C17.population.names_after_resize', False, inp, {'raised': repr(e)[:200]})
+        return
+    check_pop(ctx, pm, n1, rng, inp, 'C17.population')
+
+
 def likelihood_objects(ctx, chi, rng, i):
     from props import c01
     kinds, grids, obs, n_mech, psi, sig = c01.gen_case(rng, ties=False)
@@ -180,6 +268,7 @@ def likelihood_objects(ctx, chi, rng, i):
     inp = {'object': 'LogLikelihood', 'kinds': kinds, 'n_mech': n_mech, 'sequence': seq}
     ctx.case('LogLikelihood/%dout/%s' % (len(kinds), '+'.join(seq) or 'fresh'),
              nontrivial=('LL/%s/%s' % (''.join(kinds), seq)) if (len(kinds) > 1 or seq) else False, sample=inp)
+    stable_queries(ctx, 'C17.LogLikelihood', ll, inp)
     n = ll.n_parameters()
     names = ll.get_parameter_names()
     ctx.spec('C17.LogLikelihood.count_eq_names', n == len(names), inp, {'n': n, 'names': names})
@@ -327,7 +416,17 @@ def controller_objects(ctx, chi, rng, i):
     ctx.case('Controller/%dout%s' % (n_out, '+shared-error-model' if shared else ''),
              nontrivial='Ctrl/%s/%d/%s' % (kinds, n_ids, shared) if (n_out > 1 or n_ids > 1) else False, sample=inp)
     try:
-        c = chi.ProblemModellingController(toy.ToyModel(n_out, n_mech, i), ems)
+        mech_in = toy.ToyModel(n_out, n_mech, i)
+        wrap = rng.random()
+        if wrap < 0.4:
+            # handed over inside a reduced wrapper with nothing fixed (never fixed, or fixed and released again)
+            mech_in = chi.ReducedMechanisticModel(mech_in)
+            if wrap < 0.2:
+                mech_in.fix_parameters({'psi0': 1.0})
+                mech_in.fix_parameters({'psi0': None})
+            inp = dict(inp, mechanistic_model_in_reduced_wrapper='released' if wrap < 0.2 else 'never fixed')
+        c = chi.ProblemModellingController(mech_in, ems)
+        stable_queries(ctx, 'C17.Controller', c, inp, count_fn='get_n_parameters')
         names = c.get_parameter_names()
         ctx.spec('C17.Controller.names_identify_outputs', names == want and c.get_n_parameters() == len(names), inp,
                  {'names': names, 'expected': want, 'n': c.get_n_parameters()})
@@ -349,7 +448,11 @@ def controller_objects(ctx, chi, rng, i):
         n = len(free)
         c.set_log_prior(pints.ComposedLogPrior(*[pints.UniformLogPrior(0, 10) for _ in range(n)]) if n > 1
                         else pints.UniformLogPrior(0, 10))
+        stable_queries(ctx, 'C17.Controller', c, dict(inp, sequence=seq), count_fn='get_n_parameters')
         post = c.get_log_posterior(individual='p0')
+        stable_queries(ctx, 'C17.LogPosterior', post, dict(inp, sequence=seq))
+        pmod = c.get_predictive_model()
+        stable_queries(ctx, 'C17.PredictiveModel', pmod, dict(inp, sequence=seq))
         x = rng.uniform(0.5, 1.5, n)
         with np.errstate(all='ignore'):
             post(x)
@@ -599,7 +702,7 @@ def run(ctx):
     chi = core.import_chi()
     quick = ctx.tier == 'quick'
     reduced_before_n_ids(ctx, chi, ctx.sub_rng(999))
-    n = 120 if quick else 4000
+    n = 360 if quick else 4000
     for i in range(n):
         ctx.guard(pop_objects, ctx, chi, ctx.sub_rng(4 * i), i)
         ctx.guard(hier_objects, ctx, chi, ctx.sub_rng(4 * i + 1), i)
@@ -612,6 +715,8 @@ def run(ctx):
             ctx.guard(filter_posterior_objects, ctx, chi, ctx.sub_rng(4 * i + 3), i)
         if i % 3 == 0:
             ctx.guard(controller_objects, ctx, chi, ctx.sub_rng(4 * i + 3), i)
+        if i % 4 == 1:
+            ctx.guard(reduced_then_resized, ctx, chi, ctx.sub_rng(4 * i + 3))
     ctx.guard(sbml_objects, ctx, chi, ctx.sub_rng(10 ** 6), 12 if quick else 80)
     if not quick:
         opts = [(c, nd, 0, None) for c in range(7) for nd in (1, 2)]
